@@ -19,7 +19,7 @@ from cli_common import CONTROL_BEHAVIOURS, CONTROL_DISHONEST_BYTES, TRANSPORT_BE
 PID = 'C30'
 SIG_CONTROL = 'C30:control-path-no-hash-check'
 SIG_TRANSPORT = 'C30:transport-path-unverified-bytes'
-RULE = ('Hypothesis case -> payload (literal <= 48 bytes, or a size from {0,1,2,63,64,65,255,256,1023,1024,4096,16384,65536} expanded from a seed); manifest from the '
+RULE = ('Hypothesis case -> chunk id = content hash (1/2), an unrelated id, or the hash of the bytes a dishonest endpoint of the case serves; payload (literal <= 48 bytes, or a size from {0,1,2,63,64,65,255,256,1023,1024,4096,16384,65536} expanded from a seed); manifest from the '
         'independent Python encoder (threshold 1..4 of 1..6 GF(256) shares, token-challenge bits {0,1,4,8}, optional expired expiry) with 1..3 endpoints, each on one path '
         '(transport hint / relay hint / control hint / control:// fallback / local daemon; hint spellings and priorities vary) and with a behaviour: control-type {honest, other '
         'bytes, truncated, extended, empty, other bytes whose SHA-256 shares the first / last two bytes, short body, wrong SIZE, error, OK-without-payload, close, unreachable}; transport-type {honest, ciphertext of other bytes, truncated, '
@@ -195,7 +195,8 @@ def make_strategy():
         flags = draw(st.sampled_from(PERMITTED[kinds[focus]])) if draw(st.integers(0, 9)) < 8 else draw(st.sampled_from(ALL_FLAGS))
         return {'payload': draw(payload), 'seed': draw(st.integers(0, 2 ** 32)), 'threshold': draw(st.integers(1, 4)), 'extra_shares': draw(st.integers(0, 2)),
                 'token_bits': draw(st.sampled_from([0, 0, 0, 1, 4, 8])), 'expired': draw(st.sampled_from([False] * 14 + [True])), 'endpoints': eps, 'flags': flags,
-                'out_mode': draw(st.sampled_from(['file', 'file', 'dir', 'positional'])), 'omit_len_when_empty': draw(st.booleans())}
+                'out_mode': draw(st.sampled_from(['file', 'file', 'dir', 'positional'])), 'omit_len_when_empty': draw(st.booleans()),
+                'id_mode': draw(st.sampled_from([0, 0, 0, 1, 2, 2]))}
 
     return case()
 
@@ -226,8 +227,23 @@ def run_case(ctx, case):
         return run_real_case(ctx, case)
     payload = payload_of(case)
     threshold = case['threshold']
+    # the chunk id: the content hash (what `eph store` uses), an unrelated id (nodes may store under any id), or the hash of
+    # the very bytes a dishonest endpoint of this case will serve (so that "matches the id" and "matches the manifest's content hash" differ)
+    id_mode = case.get('id_mode', 0)
+    if id_mode == 0 and (case['seed'] & 1) and any(ep['behaviour'] == 'other' and ep['kind'] in ('transport', 'relay') for ep in case['endpoints']):
+        id_mode = 2
+    chunk_id = None
+    if id_mode == 1:
+        chunk_id = cc.expand(case['seed'], 32, b'chunk-id')
+    elif id_mode == 2:
+        others = [ep for ep in case['endpoints'] if ep['behaviour'] == 'other']
+        chunk_id = cc.sha256(cc.dishonest_bytes(payload, 'other', others[0]['arg'])) if others else cc.expand(case['seed'], 32, b'chunk-id')
+        if others:
+            ctx.label('chunk_id_is_hash_of_the_substituted_bytes')
+    if id_mode:
+        ctx.label('chunk_id_differs_from_content_hash')
     pub = cc.Published(payload, case['seed'], threshold=threshold, nshards=threshold + case['extra_shares'],
-                       expires_in=-3600 if case['expired'] else 3600)
+                       expires_in=-3600 if case['expired'] else 3600, chunk_id=chunk_id)
     m = pub.manifest
     m.token_bits = case['token_bits']
     ctx.note('payload=%dB[%s] t=%d/%d bits=%d%s' % (len(payload), cc.show(payload, 12), threshold, len(m.shards), m.token_bits, ' EXPIRED' if case['expired'] else ''))
